@@ -83,7 +83,7 @@ func c16Rows() []c16row {
 		for _, crash := range []bool{false, true} {
 			for _, up := range []bool{false, true} {
 				for _, mode := range []string{"on", "local", "off", "garbage", "missing"} {
-					for _, tok := range []string{"absent", "fresh:1s", "fresh:1h", "fresh:23h59m", "stale:24h1m", "stale:25h", "stale:87600h"} {
+					for _, tok := range []string{"absent", "fresh:1s", "fresh:1h", "fresh:23h59m", "stale:24h1m", "stale:25h", "stale:87600h", "fresh:-2h"} /* (-2h: taken before the clock was set back, or stamped by a file server running ahead) */ {
 						rows = append(rows, c16row{Marker: m, Crash: crash, Upload: up, Mode: mode, Token: tok, UseTDir: (len(rows)/3)%2 == 1, LocalDir: len(rows)%3 != 0})
 					}
 				}
@@ -399,7 +399,7 @@ func diffSnap(a, b map[string]string) string {
 func TestVerifC16Table(t *testing.T) {
 	const check = "C16.table"
 	res := verifrt.NewResult(check)
-	res.Rule = "the full decision table {child marker unset, '', 1, 2, 3, x} x {ReportCrashes} x {Upload} x {mode on, local, off, garbage, missing} x {token absent, fresh 1s/1h/23h59m, stale 24h1m/25h/10y} (840 rows; Config.TelemetryDir vs default location and pre-existing local/ alternate over the rows) run as real processes: the application (this binary re-executed), its sidecar, and the `go` command the uploader child runs (this binary again, first on PATH). Every process appends {pid, ppid, markers, argv} to a log before calling telemetry.Start. Oracle from the log and directory snapshots: sidecar iff permitted; upload flag iff token acquired; no marker-1 process below a marker-1/2 process; mode off: nothing started, nothing written — also judged on the system calls of the whole process tree recorded by strace -f (no execve beyond the application's own, no successful create/truncate/unlink/rename/mkdir/chmod/touch/write on a path under the telemetry directory). distinct = table rows (each run once; quick tier: every third row rotating with the seed, thorough: all)"
+	res.Rule = "the full decision table {child marker unset, '', 1, 2, 3, x} x {ReportCrashes} x {Upload} x {mode on, local, off, garbage, missing} x {token absent, fresh 1s/1h/23h59m and dated 2h ahead of the clock, stale 24h1m/25h/10y} (960 rows; Config.TelemetryDir vs default location and pre-existing local/ alternate over the rows) run as real processes: the application (this binary re-executed), its sidecar, and the `go` command the uploader child runs (this binary again, first on PATH). Every process appends {pid, ppid, markers, argv} to a log before calling telemetry.Start. Oracle from the log and directory snapshots: sidecar iff permitted; upload flag iff token acquired; no marker-1 process below a marker-1/2 process; mode off: nothing started, nothing written — also judged on the system calls of the whole process tree recorded by strace -f (no execve beyond the application's own, no successful create/truncate/unlink/rename/mkdir/chmod/touch/write on a path under the telemetry directory). distinct = table rows (each run once; quick tier: every third row rotating with the seed, thorough: all)"
 	rows := c16Rows()
 	nb := 16
 	per := (len(rows) + nb - 1) / nb
@@ -477,7 +477,7 @@ func TestVerifC16Token(t *testing.T) {
 			// or 25 hours long on the wall clock)
 			tp := filepath.Join(itelemetry.Default.LocalDir(), "upload.token")
 			os.WriteFile(tp, nil, 0o666)
-			age := verifrt.Pick(rnd, []time.Duration{0, time.Hour, 12 * time.Hour, 23 * time.Hour, 23*time.Hour + 30*time.Minute, 23*time.Hour + 45*time.Minute}) // (a quarter of an hour of slack for a stalled machine)
+			age := verifrt.Pick(rnd, []time.Duration{0, time.Hour, 12 * time.Hour, 23 * time.Hour, 23*time.Hour + 30*time.Minute, 23*time.Hour + 45*time.Minute, -time.Minute, -3 * time.Hour}) // (a quarter of an hour of slack for a stalled machine)
 			at := time.Now().Add(-age)
 			os.Chtimes(tp, at, at)
 			res.Hit(fmt.Sprintf("fresh-token-age:%v", age))
@@ -700,7 +700,7 @@ func TestVerifC16Token(t *testing.T) {
 		}
 		os.RemoveAll(work)
 	}
-	res.Require("launch-failure-history", "strategy:park", "strategy:pct", "one-winner", "real-race-round", "fault:OpenFile", "fault:Stat", "fault-on-every-or-last-starter", "local-zone:spring-forward", "local-zone:fall-back", "fresh-token-age:23h30m0s")
+	res.Require("launch-failure-history", "strategy:park", "strategy:pct", "one-winner", "real-race-round", "fault:OpenFile", "fault:Stat", "fault-on-every-or-last-starter", "local-zone:spring-forward", "local-zone:fall-back", "fresh-token-age:23h30m0s", "fresh-token-age:-3h0m0s")
 	if err := res.Write(); err != nil {
 		t.Fatal(err)
 	}
